@@ -53,7 +53,8 @@ type actor struct {
 	reads    int    // producer: number of height reads of the current call
 	lastRead uint32 // height returned by the last read
 	arg      *item  // runner: argument of the pending AddItem
-	skip     int    // runner: ungated Height calls that follow a failed AddItem (logging only)
+	skip     int    // runner: 1 = the next Height call is the condition of the failure log, 2 = its message argument
+	failIdx  uint32 // runner: index of the block whose addition failed
 	panicVal any
 	todo     uint32 // requester: index to deliver next (0 = none)
 }
@@ -82,11 +83,13 @@ type world struct {
 	failedAdds   int
 	aheadAdds    int
 	discarded    bool
+	gen          int64 // incremented by every scheduler action that may wake the runner
+	parkedGen    int64 // value of gen when the runner was last seen parked on checkBlocks (-1: not known)
 	infra        string // non-empty: the harness itself failed (-> inconclusive, never a verdict)
 }
 
 func newWorld(capacity int, h0 uint32, blocking bool, nprod int) *world {
-	w := &world{chainH: h0, capacity: capacity, blocking: blocking, byGoid: map[uint64]*actor{}, items: map[int]*item{},
+	w := &world{parkedGen: -1, chainH: h0, capacity: capacity, blocking: blocking, byGoid: map[uint64]*actor{}, items: map[int]*item{},
 		dumpBuf: make([]byte, 1<<18)}
 	mode := bqueue.NonBlocking
 	if blocking {
@@ -144,9 +147,15 @@ func (w *world) Height() uint32 {
 		return w.chainH
 	}
 	if a.runner && a.skip > 0 {
-		a.skip--
+		// queue.go logs a failed addition: `if chain.Height() < b.GetIndex()` and, if so, Height() once more
+		// for the message. These reads do not influence the queue: they are not gated.
 		w.mu.Lock()
 		defer w.mu.Unlock()
+		if a.skip == 1 && w.chainH < a.failIdx {
+			a.skip = 2
+		} else {
+			a.skip = 0
+		}
 		return w.chainH
 	}
 	w.gate(a, stH1)
@@ -189,11 +198,7 @@ func (w *world) AddItem(it *item) error {
 			w.aheadAdds++
 		}
 		w.emit(event{"event": "apply", "item": it.id, "i": it.idx, "ok": false, "h": w.chainH})
-		// queue.go logs a failed addition: Height() once for the condition, once more for the message
-		a.skip = 1
-		if w.chainH < it.idx {
-			a.skip = 2
-		}
+		a.skip, a.failIdx = 1, it.idx
 	}
 	w.mu.Unlock()
 	w.gate(a, stA2)
@@ -234,6 +239,9 @@ func (w *world) unregister(a *actor, st int, pv any) {
 }
 
 func (w *world) startRunner() {
+	w.mu.Lock()
+	w.gen++
+	w.mu.Unlock()
 	w.set(w.run, stRun)
 	w.wg.Add(1)
 	go func() {
@@ -294,6 +302,7 @@ func (w *world) release(a *actor) {
 	ok := atGate(a.state)
 	if ok {
 		a.state = stRun // it is on its way; settle() decides where it stops next
+		w.gen++
 	}
 	w.mu.Unlock()
 	if ok {
@@ -363,14 +372,20 @@ func (w *world) settle() bool {
 	for n := 0; ; n++ {
 		var moving []*actor
 		w.mu.Lock()
+		gen := w.gen
 		for _, a := range w.all() {
-			if a.state == stRun {
+			if a.state == stRun && !(a.runner && w.parkedGen == gen) {
 				moving = append(moving, a)
 			}
 		}
 		w.mu.Unlock()
 		if len(moving) == 0 {
 			return true
+		}
+		// most moves end at a gate within microseconds: look at the goroutines only if somebody is still out
+		if n%8 != 7 {
+			runtime.Gosched()
+			continue
 		}
 		// goroutine states are read AFTER the actor states: whoever could still send a signal was
 		// seen moving above, so a runner reported in "chan receive" here with nobody moving is parked for good
@@ -394,16 +409,24 @@ func (w *world) settle() bool {
 			}
 		}
 		if stable {
-			// the states may have changed between the dump and now only towards a gate
+			// The runner stays parked until somebody sends on (or closes) checkBlocks, which only happens in a
+			// step started by the scheduler (release of a producer, Discard): remember it until then.
+			w.mu.Lock()
+			if w.gen == gen && w.run.state == stRun {
+				for _, a := range moving {
+					if a.runner {
+						w.parkedGen = gen
+					}
+				}
+			}
+			w.mu.Unlock()
 			return true
 		}
 		if time.Now().After(deadline) {
 			w.infra = "settle: watchdog timeout; states: " + w.describe()
 			return false
 		}
-		if n < 50 {
-			runtime.Gosched()
-		} else {
+		if n > 400 {
 			time.Sleep(20 * time.Microsecond)
 		}
 	}
